@@ -799,8 +799,6 @@ class C09(PropCheck):
         snap0 = snapshot(params0)
         x0 = np.array(case['x0'], dtype=float)       # the binary64 values of the start: what the chain must start from
         dtypes = []
-        kw = dict(n_adapt=case['n_adapt'], target_prob=case['target_prob'], max_depth=case['max_depth'], seed=case['seed'],
-                  stepsize=case['stepsize'])
 
         def call(rec):
             def rtarget(x):
